@@ -321,8 +321,17 @@ func guardedBy(e *Env, rule string, table []guard, excs []lockExc) {
 				for cur := ast.Node(a.sel); cur != nil && !found; cur = par[cur] {
 					if cc, ok := par[cur].(*ast.CommClause); ok && cc.Comm != nil {
 						ast.Inspect(cc.Comm, func(m ast.Node) bool {
-							if ue, ok := m.(*ast.UnaryExpr); ok && ue.Op == token.ARROW && types.ExprString(ue.X) == want {
-								found = true
+							if ue, ok := m.(*ast.UnaryExpr); ok && ue.Op == token.ARROW {
+								if types.ExprString(ue.X) == want {
+									found = true
+								} else if rs, ok := unparen(ue.X).(*ast.SelectorExpr); ok && types.ExprString(rs.X) == types.ExprString(se.X) {
+									// the signalling channel was renamed: any channel field of the same value
+									if fv := usedVar(u.info, rs); fv != nil && fv.IsField() {
+										if _, isChan := fv.Type().Underlying().(*types.Chan); isChan {
+											found = true
+										}
+									}
+								}
 							}
 							return true
 						})
